@@ -4,9 +4,10 @@ from __future__ import annotations
 
 import ast
 import itertools
+from fractions import Fraction
 
 from optilint.model import dotted, walk_local, norm_src
-from optilint.tensoreval import (Interp, Dual, Arr, EvalError, Raised, d_fun, d_pow, _A, rat_is_zero, rat_const, Closure, Record)
+from optilint.tensoreval import (Interp, Dual, Arr, EvalError, Raised, d_fun, d_pow, _A, rat_is_zero, rat_const, Closure, Record, PyFunc, LookupFailed)
 
 MODELS = [
     # (module, factory, kind)
@@ -29,17 +30,60 @@ class PropDict(dict):
         self._interp = interp
         self._option_keys = set(option_keys)
 
+    def _symbol(self, key):
+        """value of a numeric material constant: a fresh positive symbol (subclasses may attach unit factors)"""
+        nm = "prop<" + str(key) + ">"
+        self._interp.positive.add(nm)
+        return Dual(_A.atom(nm))
+
     def __missing__(self, key):
         if key in self._option_keys or not isinstance(key, str):
             raise KeyError(key)
-        nm = "prop<" + key + ">"
-        self._interp.positive.add(nm)
-        v = Dual(_A.atom(nm))
+        v = self._symbol(key)
         self[key] = v
         return v
 
+    def __getitem__(self, key):
+        v = super().__getitem__(key)
+        if isinstance(v, str) and v == "present":
+            # a key that a scenario only declares present (optional numeric constant): its value is a positive symbol like any other constant
+            return self._symbol(key)
+        return v
+
+    def get(self, key, default=None):
+        if dict.__contains__(self, key):
+            return self[key]
+        return default
+
 
 def option_space(ctx, modules):
+    """Enumerate (key -> set of literals, optional keys, presence-only keys) of the property dictionaries read by the
+    factories of the given modules.
+
+    Primary source: *interpretation* of every factory with a recording property dictionary (`option_space_semantic`):
+    whatever mechanism selects the variant -- if/elif chains, `in` tests, dictionary dispatch, `.get` with a default,
+    helper functions -- the string literals an option value is compared with / looked up by are observed on the value.
+    The syntactic scan of the module text (`option_space_syntactic`, the original enumeration) is united with it, so that an
+    option the interpreter could not reach is still tried (a combination the factory rejects is skipped by every caller)."""
+    values, optional, presence = option_space_syntactic(ctx, modules)
+    presence = set(presence) | set(optional)
+    try:
+        v2, p2 = option_space_semantic(ctx, modules)
+    except Exception as ex:       # the probe is an optimisation of coverage, never a reason to fail
+        ctx.notes.append(f"option probe failed: {type(ex).__name__}: {ex}")
+        v2, p2 = {}, set()
+    for k, lits in v2.items():
+        values.setdefault(k, set()).update(lits)
+    presence |= p2
+    optional = set()
+    for k in list(presence):
+        if k in values:
+            optional.add(k)
+            presence.discard(k)
+    return values, optional, presence
+
+
+def option_space_syntactic(ctx, modules):
     """Enumerate (key -> set of literals, optional keys, presence-only keys) from comparisons of
     properties[...] with string literals and `'key' in properties` tests in the given modules."""
     values, optional, presence = {}, set(), set()
@@ -77,6 +121,192 @@ def option_space(ctx, modules):
     return values, optional, presence
 
 
+# ---------------------------------------------------------------- semantic option discovery
+
+_PRESENT, _ABSENT = "<present>", "<absent>"
+
+
+class _OptToken(Dual):
+    """Value of a property key that has no option value in the current probe run.  Numerically it is the positive symbol
+    prop<key> (so a factory that computes with it runs on); a comparison with, membership test in, or dictionary lookup by
+    string literals is *recorded* as the set of option values of that key."""
+    __slots__ = ("key",)
+
+    def __init__(self, key):
+        super().__init__(_A.atom("prop<" + str(key) + ">"))
+        self.key = key
+
+
+class _ProbeLog:
+    def __init__(self):
+        self.values = {}        # key -> set of literals the value was compared with / looked up by
+        self.presence = set()   # keys tested with `in` / read with .get(key, default)
+
+
+class _ProbeProps(dict):
+    """Recording property dictionary of one probe run under a partial assignment key -> literal | present | absent."""
+
+    def __init__(self, interp, assignment, log):
+        super().__init__()
+        self._interp, self._assign, self._log = interp, dict(assignment), log
+
+    def _token(self, key):
+        self._interp.positive.add("prop<" + str(key) + ">")
+        return _OptToken(key)
+
+    def __contains__(self, key):
+        if isinstance(key, str):
+            self._log.presence.add(key)
+        return self._assign.get(key, _ABSENT) != _ABSENT
+
+    def __getitem__(self, key):
+        v = self._assign.get(key)
+        if v == _ABSENT and key in self._log.presence:
+            raise KeyError(key)
+        if v is None or v in (_PRESENT, _ABSENT):
+            return self._token(key)
+        return v
+
+    def get(self, key, *default):
+        if default and default[0] is not None and isinstance(key, str):     # .get(key) / .get(key, None) only passes the value along
+            self._log.presence.add(key)
+            if isinstance(default[0], str):
+                self._log.values.setdefault(key, set()).add(default[0])
+        v = self._assign.get(key)
+        if v is None or v == _ABSENT:
+            if default:
+                return default[0]
+            return self._token(key) if v is None else None
+        return self._token(key) if v == _PRESENT else v
+
+    def keys(self):
+        return [k for k, v in self._assign.items() if v != _ABSENT]
+
+    def items(self):
+        return [(k, self[k]) for k in self.keys()]
+
+
+def _strings_of(container):
+    if isinstance(container, dict):
+        container = list(container.keys())
+    if isinstance(container, (list, tuple, set, frozenset)):
+        return [x for x in container if isinstance(x, str)]
+    return []
+
+
+class _ProbeInterp(Interp):
+    """tensoreval interpreter that records what option tokens are compared with."""
+    log = None
+
+    def compare(self, a, op, b):
+        for x, y in ((a, b), (b, a)):
+            if isinstance(x, _OptToken):
+                if isinstance(y, str) and isinstance(op, (ast.Eq, ast.NotEq)):
+                    self.log.values.setdefault(x.key, set()).add(y)
+                    return isinstance(op, ast.NotEq)
+                if x is a and isinstance(op, (ast.In, ast.NotIn)) and _strings_of(y):
+                    self.log.values.setdefault(x.key, set()).update(_strings_of(y))
+                    return isinstance(op, ast.NotIn)
+        return super().compare(a, op, b)
+
+    def eval_index(self, s, env):
+        if not isinstance(s, (ast.Slice, ast.Tuple)):
+            v = self.eval(s, env)
+            if isinstance(v, _OptToken):
+                return v
+            if isinstance(v, (Dual, Fraction)):
+                return self.as_int(v)
+            return v
+        return super().eval_index(s, env)
+
+    def getitem(self, base, key):
+        if isinstance(key, _OptToken) and isinstance(base, dict) and _strings_of(base):
+            self.log.values.setdefault(key.key, set()).update(_strings_of(base))
+            raise LookupFailed(f"lookup by the value of option '{key.key}' (no such key)")
+        return super().getitem(base, key)
+
+    def call_method(self, base, name, args, kwargs):
+        if name == "get" and isinstance(base, dict) and args and isinstance(args[0], _OptToken) and _strings_of(base):
+            self.log.values.setdefault(args[0].key, set()).update(_strings_of(base))
+            return args[1] if len(args) > 1 else None
+        if isinstance(base, _OptToken) and name in ("lower", "upper", "strip", "casefold"):
+            return base
+        return super().call_method(base, name, args, kwargs)
+
+    def e_Attribute(self, e, env):
+        if e.attr in ("lower", "upper", "strip", "casefold"):
+            base = self.eval(e.value, env)
+            if isinstance(base, _OptToken):
+                return ("method", base, e.attr)
+            if isinstance(base, str):
+                return PyFunc("str." + e.attr, lambda it, a, k, base=base, nm=e.attr: getattr(base, nm)(*a))
+        return super().e_Attribute(e, env)
+
+
+def property_factories(ctx, mname):
+    """Entry points whose first parameter is used as a property dictionary (subscripted by / tested for string keys):
+    the model factories of MODELS in that module plus every top-level function with that role."""
+    m = ctx.need_module(mname)
+    out = []
+    for (mod, fac, kind) in MODELS:
+        if mod == mname and ctx.repo.find(f"{mod}:{fac}") is not None:
+            out.append(fac)
+    for sc in m.scope.children:
+        if sc.kind != "function" or not sc.params() or sc.name in out:
+            continue
+        p = sc.params()[0]
+        role = False
+        for n in walk_local(sc.node):
+            if isinstance(n, ast.Subscript) and isinstance(n.value, ast.Name) and n.value.id == p and isinstance(n.slice, ast.Constant) \
+                    and isinstance(n.slice.value, str):
+                role = True
+            elif isinstance(n, ast.Compare) and len(n.ops) == 1 and isinstance(n.ops[0], (ast.In, ast.NotIn)) and isinstance(n.left, ast.Constant) \
+                    and isinstance(n.left.value, str) and isinstance(n.comparators[0], ast.Name) and n.comparators[0].id == p:
+                role = True
+            elif isinstance(n, ast.Call) and isinstance(n.func, ast.Attribute) and n.func.attr == "get" and isinstance(n.func.value, ast.Name) \
+                    and n.func.value.id == p and n.args and isinstance(n.args[0], ast.Constant) and isinstance(n.args[0].value, str):
+                role = True
+        if role and len(sc.params()) - len([q for q in sc.params() if sc.default_of(q) is not None]) <= 1:
+            out.append(sc.name)
+    return out
+
+
+def option_space_semantic(ctx, modules, max_runs=400):
+    """(key -> literals, presence-tested keys) observed while interpreting the property factories of `modules` under every
+    partial assignment reachable by forking on each observed presence test and each observed literal."""
+    values, presence = {}, set()
+    for mname in modules:
+        mod = ctx.need_module(mname)
+        for fac in property_factories(ctx, mname):
+            seen, work, runs = set(), [{}], 0
+            while work and runs < max_runs:
+                A = work.pop(0)
+                fz = frozenset(A.items())
+                if fz in seen:
+                    continue
+                seen.add(fz)
+                runs += 1
+                I = make_interp(ctx.repo, _ProbeInterp)
+                I.log = log = _ProbeLog()
+                props = _ProbeProps(I, A, log)
+                try:
+                    I.call(I.module_value(mod, fac), [props], {})
+                except (Raised, EvalError):
+                    pass
+                except (KeyError, IndexError, TypeError, ValueError, AttributeError, ZeroDivisionError, RecursionError):
+                    pass
+                for k in log.presence:
+                    presence.add(k)
+                    if k not in A:
+                        work.append({**A, k: _PRESENT})
+                for k, lits in log.values.items():
+                    for s_ in sorted(lits):
+                        values.setdefault(k, set()).add(s_)
+                        if A.get(k) in (None, _PRESENT):
+                            work.append({**A, k: s_})
+    return values, presence
+
+
 def scenarios(values, optional, presence):
     keys = sorted(values) + sorted(presence)
     axes = []
@@ -91,8 +321,8 @@ def scenarios(values, optional, presence):
         yield {k: v for (k, v) in combo if v is not None}
 
 
-def make_interp(repo):
-    I = Interp(repo)
+def make_interp(repo, cls=None):
+    I = (cls or Interp)(repo)
 
     def smf(interp, args, kw):
         A, f = args
